@@ -87,7 +87,7 @@ def run_value_shard(shard: dict, prop: str, check_case: Callable, contracts: Lis
             if _time.time() > t_end:
                 res.note("cases-skipped-by-time-cap")
                 continue
-            w = witness(shard, mi, tree)
+            w = witness(shard, mi, tree, tag=tag.split(":")[0])
             monitors.set_context(w)
             res.case(f"{name}|{mi.full_name}|{_tkey(tree)}")
             res.note("cases:" + tag.split(":")[0])
